@@ -45,6 +45,7 @@ import Fbr.Lemmas.XportCLog
 import Fbr.Lemmas.XportFuseThm
 import Fbr.Lemmas.XportFuseRd
 import Fbr.Thm.C01
+import Fbr.Lemmas.FileIo
 
 namespace Fbr.Thm.C04
 open Fbr.Xport
@@ -739,6 +740,35 @@ example : (∃ s, (⟨2, 64, 8, 64, false⟩ : FuseW).checkAvail 1 = .error (.pa
 example : ∃ b, fromChain [(1, 4096, 8192), (2, 65536, 4096)]
     [⟨false, 4100, 8⟩, ⟨false, 4200, 0⟩, ⟨true, 65536, 4096⟩, ⟨true, 5000, 1⟩] true = .ok b := ⟨_, rfl⟩
 
+
+/-! ### the file adapters (`file_traits.rs`, `async_file.rs`)
+
+`Fbr.FileIo.readVec` / `writeVec` have the shape of the vectored file operations — one positioned
+operation per buffer at an offset advanced by the buffer's size, stopping after the first short
+count (the asynchronous implementation unrolls this in groups of 4, 3, 2 and 1).  The trait's
+contract is "must behave as a single call with the buffers concatenated". -/
+
+/-- a vectored read delivers, buffer after buffer, exactly what one read of the total size at the
+    same offset returns — for every file, offset and list of buffer sizes (zero-sized ones included) -/
+theorem file_vectored_read_is_single_read (file : Fbr.FileIo.Bytes) (off : Nat) (caps : List Nat) :
+    (Fbr.FileIo.readVec file off caps).1.flatten = Fbr.FileIo.preadAt file off caps.sum ∧
+    (Fbr.FileIo.readVec file off caps).2 = (Fbr.FileIo.preadAt file off caps.sum).length :=
+  Fbr.FileIo.readVec_flat file off caps
+
+/-- no buffer receives more than its size, and there is one result per buffer -/
+theorem file_vectored_read_respects_buffers (file : Fbr.FileIo.Bytes) (off : Nat) (caps : List Nat) :
+    (Fbr.FileIo.readVec file off caps).1.length = caps.length ∧
+    ∀ i, ((Fbr.FileIo.readVec file off caps).1.getD i []).length ≤ caps.getD i 0 :=
+  Fbr.FileIo.readVec_each_le file off caps
+
+/-- a vectored write leaves the file exactly as one write of the concatenation at the same offset
+    does, and reports the total length -/
+theorem file_vectored_write_is_single_write (file : Fbr.FileIo.Bytes) (off : Nat) (ds : List Fbr.FileIo.Bytes) :
+    Fbr.FileIo.writeVec file off ds = (Fbr.FileIo.pwriteAt file off ds.flatten, ds.flatten.length) :=
+  Fbr.FileIo.writeVec_concat file off ds
+
+example : Fbr.FileIo.writeVec [1, 2, 3, 4] 6 [[7, 8], [], [9]] = ([1, 2, 3, 4, 0, 0, 7, 8, 9], 3) := by decide
+example : (Fbr.FileIo.readVec [1, 2, 3, 4, 5] 1 [2, 0, 5, 1]).1 = [[2, 3], [], [4, 5], []] := by decide
 
 /-! ### composition with the server model (C01)
 
